@@ -90,4 +90,99 @@ theorem C13_repeat_nonpds (c : EncCfg) (items : Items) (h : c.kind ≠ .pds) :
     (encode c (encode c items).after).out = (encode c items).out := by
   rw [(C13_intact c items).2 h]
 
+/-! ### PDS3: the second call sees an OBJECT and converts nothing more -/
+
+def aggStep (acc : Nat × Nat) (p : Str × Val) : Nat × Nat :=
+  match p.2 with
+  | .cont .group _ => (acc.1, acc.2 + 1)
+  | .cont _ _ => (acc.1 + 1, acc.2)
+  | _ => acc
+
+theorem countAggs_eq (items : Items) : countAggs items = items.foldl aggStep (0, 0) := by
+  unfold countAggs
+  congr 1
+
+theorem foldl_aggStep_mono (items : Items) (acc : Nat × Nat) : acc.1 ≤ (items.foldl aggStep acc).1 := by
+  induction items generalizing acc with
+  | nil => exact Nat.le_refl _
+  | cons p r ih =>
+    simp only [List.foldl_cons]
+    refine Nat.le_trans ?_ (ih _)
+    unfold aggStep
+    split <;> simp
+
+/-- whatever `convertFirst` converts becomes an OBJECT, so the result holds at least one OBJECT -/
+theorem convertFirst_has_object (p : Str × Val → Bool) (items items' : Items) (acc : Nat × Nat)
+    (h : convertFirst p items = some items') : acc.1 + 1 ≤ (items'.foldl aggStep acc).1 := by
+  induction items generalizing items' acc with
+  | nil => simp [convertFirst] at h
+  | cons x r ih =>
+    obtain ⟨k, v⟩ := x
+    unfold convertFirst at h
+    by_cases hp : p (k, v) = true
+    · simp only [hp, if_true] at h
+      cases v <;> simp at h
+      subst h
+      simp only [List.foldl_cons]
+      refine Nat.le_trans ?_ (foldl_aggStep_mono _ _)
+      simp [aggStep]
+    · simp only [hp, Bool.false_eq_true, if_false] at h
+      cases hr : convertFirst p r with
+      | none => simp [hr] at h
+      | some r' =>
+        simp only [hr, Option.map_some, Option.some.injEq] at h
+        subst h
+        simp only [List.foldl_cons]
+        refine Nat.le_trans ?_ (ih r' _ hr)
+        have : acc.1 ≤ (aggStep acc (k, v)).1 := by unfold aggStep; split <;> simp
+        omega
+
+/-- the conversion is idempotent: applied to its own result it changes nothing -/
+theorem pdsConvert_idem (c : EncCfg) (items items' : Items) (h : pdsConvert c items = .ok items') :
+    pdsConvert c items' = .ok items' := by
+  have key : ∀ p, convertFirst p items = some items' → pdsConvert c items' = .ok items' := by
+    intro p hp
+    have := convertFirst_has_object p items items' (0, 0) hp
+    unfold pdsConvert
+    rw [countAggs_eq]
+    generalize items'.foldl aggStep (0, 0) = og at this
+    obtain ⟨o, g⟩ := og
+    simp only at this
+    have : (decide (g > 0) && decide (o < 1)) = false := by simp; omega
+    simp only [this, Bool.false_eq_true, if_false]
+  unfold pdsConvert at h
+  simp only at h
+  split at h
+  · split at h
+    · split at h
+      · rename_i i1 hc1
+        simp only [Except.ok.injEq] at h; subst h
+        exact key _ hc1
+      · split at h
+        · rename_i i2 hc2
+          simp only [Except.ok.injEq] at h; subst h
+          exact key _ hc2
+        · cases h
+    · cases h
+  · simp only [Except.ok.injEq] at h
+    subst h
+    rename_i hc
+    unfold pdsConvert
+    simp only [hc, Bool.false_eq_true, if_false]
+
+/-- **C13, repeatable for every encoder**: dumping the module as the first call left it gives the same
+    result as the first call — also for the PDS3 encoder, whose first call may have turned a GROUP into an
+    OBJECT -/
+theorem C13_repeat (c : EncCfg) (items : Items) :
+    (encode c (encode c items).after).out = (encode c items).out := by
+  by_cases hk : c.kind = .pds
+  · simp only [encode, encodeAfter, hk, beq_self_eq_true, if_true]
+    cases hc : pdsConvert c items with
+    | error e => simp
+    | ok items' =>
+      simp only
+      unfold encodeOut
+      simp only [hk, beq_self_eq_true, if_true, hc, pdsConvert_idem c items items' hc]
+  · exact C13_repeat_nonpds c items hk
+
 end Pvl.Enc
